@@ -130,6 +130,15 @@ def check_case(ctx, case):
     t = get_chunk_dtype_transformer(in_dtype, out, warn=False)
     try:
         with np.errstate(all="ignore"):
+            # one transformer converts every chunk of a volume: call it on
+            # another array first (both copy modes), and build an unrelated
+            # transformer in between
+            warm = np.array(values[::-1] + values, dtype=np.dtype(in_dtype))
+            warm = warm[np.isfinite(warm.astype(float))] if is_float(
+                in_dtype) else warm
+            t(warm, preserve_input=True)
+            t(warm.copy(), preserve_input=False)
+            get_chunk_dtype_transformer("float64", "uint8", warn=False)
             res = t(arr, preserve_input=case["preserve"])
     except Exception as exc:
         ctx.fail("conversion %s->%s raised %s: %s (form=%s, preserve=%s)" % (
